@@ -223,11 +223,11 @@ func c41Run(e *Env, p *c41Plan) {
 				// on failure (not timeout) every resolved address was tried once in rotation
 				if err != nil && !errors.Is(err, fasthttp.ErrDialTimeout) && !hp.ResolveErr {
 					// the connects of this dial: made by tasks the dialer spawned from this caller
-					me := simrt.CurID() + "."
+					me := simrt.CurID()
 					mu.Lock()
-					var mine []attempt
+					mine := []attempt{}
 					for _, a := range attempts[n0:] {
-						if strings.HasPrefix(a.task, me) {
+						if a.task == me || strings.HasPrefix(a.task, me+".") {
 							mine = append(mine, a)
 						}
 					}
@@ -236,8 +236,10 @@ func c41Run(e *Env, p *c41Plan) {
 						mine = nil // ran out of time: the remaining addresses could not be tried
 					}
 					if mine == nil {
+						e.Probe("rotation-not-judged")
 						continue
 					}
+					e.Probe("rotation-judged")
 					if len(mine) != len(hp.Addrs) {
 						e.Violation("not-all-tried", "dial to host%d failed with %v after trying %d of %d resolved addresses", dl.Host, err, len(mine), len(hp.Addrs))
 						return
